@@ -54,6 +54,8 @@ var scenarios = []scenario{
 	{Name: "mine||confirms", Prefix: []string{"pool", "ins a1"}, Threads: [][]string{{"mine"}, {"cf a1 1"}}, BoundQuick: 2, BoundThor: 3, ShardsQuick: 2, ShardsThor: 4},
 	{Name: "confirms||top30", Prefix: []string{"ins a1"}, Threads: [][]string{{"cf a1 1"}, {"top30"}}, BoundQuick: 2, BoundThor: 3, ShardsQuick: 1, ShardsThor: 2},
 	{Name: "confirms||blockat", Prefix: []string{"ins a1"}, Threads: [][]string{{"cf a1 1"}, {"blockat 1"}}, BoundQuick: 2, BoundThor: 3, ShardsQuick: 1, ShardsThor: 2},
+	{Name: "confirms||confirms-same-signer", Prefix: []string{"ins a1", "ins b1"}, Threads: [][]string{{"cf b1 0"}, {"cf b1 f0"}}, BoundQuick: 2, BoundThor: 3, ShardsQuick: 1, ShardsThor: 2},
+	{Name: "batch-task||confirms-for-stable-ancestor", Prefix: []string{"ins a1", "ins b1", "ins b2", "cf b2 0,1"}, Threads: [][]string{{"cf b1 0"}}, LastPrefixBG: true, BoundQuick: 2, BoundThor: 3, ShardsQuick: 2, ShardsThor: 4},
 	{Name: "insert||confirms||getconfirms", Prefix: []string{"ins a1"}, Threads: [][]string{{"ins a2"}, {"cf a1 1"}, {"confirms a1"}}, BoundQuick: 1, BoundThor: 2, ShardsQuick: 2, ShardsThor: 4},
 }
 
@@ -72,6 +74,9 @@ func (sc *scenario) shards() int {
 }
 
 var theWorld *world
+
+// fullBranch (VERIF_C19_FULLBRANCH=1, development aid): every scheduling point is a preemption point
+var fullBranch = os.Getenv("VERIF_C19_FULLBRANCH") != ""
 
 var (
 	freeRunning bool
@@ -191,6 +196,7 @@ type scStats struct {
 	MaxThreads     int             `json:"max_threads_in_a_schedule"`
 	Truncated      bool            `json:"cut_by_deadline"`
 	Shards         int             `json:"shards"`
+	WallS          float64         `json:"wall_s_of_the_slowest_shard"`
 	FinalStates    map[string]bool `json:"-"`
 	DistinctFinals int             `json:"distinct_final_partial_orders"`
 }
@@ -248,6 +254,8 @@ func raceFP(rc sched.XRace) (fp, what string) {
 // explore runs one shard of one scenario. seeds are preemption-point classes already known.
 func (sc *scenario) explore(r *core.Result, shard, nshards int, seeds []string) *scStats {
 	st := &scStats{Outcomes: map[string]int{}, Threads: map[string]int{}, Bound: sc.bound(), Shards: nshards, FinalStates: map[string]bool{}, BoundDone: -1}
+	t0 := time.Now()
+	defer func() { st.WallS = time.Since(t0).Seconds() }()
 	seq := sc.sequential()
 	st.SeqOrders, st.SeqOutcomes = seq.Orders, len(seq.Outcomes)
 	if shard == 0 {
@@ -264,11 +272,15 @@ func (sc *scenario) explore(r *core.Result, shard, nshards int, seeds []string) 
 			branch[s] = true
 		}
 	}
+	// classes.json: classes learned by earlier runs, keyed by label (no line numbers). Only an accelerator:
+	// a class too many costs schedules, a class missing is learned again (with a restart).
+	known := knownClasses()[sc.Name]
 	readSection := func(site string) bool {
 		if writerSec[site] || !strings.HasPrefix(site, "store/chain_database.go:") {
 			return false
 		}
-		return info(site).Expr == "RW"
+		si := info(site)
+		return si.Expr == "RW" && !known["W:"+si.Func]
 	}
 	learnBudget := 120 // executions of the deterministic learning phase (identical in every shard)
 	var cur *inst
@@ -279,8 +291,10 @@ func (sc *scenario) explore(r *core.Result, shard, nshards int, seeds []string) 
 		execsInPhase := 0
 		var added []string
 		ex := &sched.XExplorer{Bound: sc.bound(), Deadline: core.OutOfTime, Alternate: true}
-		ex.Cfg = sched.XCfg{Watchdog: watchdog, Learn: true, AtomicLoad: atomicLoad, ReadSection: readSection,
-			Branch: func(site string, kind sched.OpKind) bool { return branch[sched.BranchKey(site, kind)] }}
+		ex.Cfg = sched.XCfg{Watchdog: watchdog, Learn: true, AtomicLoad: atomicLoad, ReadSection: readSection, AccessWrite: storeWrite, NoRace: storeProxy,
+			Branch: func(site string, kind sched.OpKind) bool {
+				return fullBranch || branch[sched.BranchKey(site, kind)] || known[label(sched.XKindName(kind), site)]
+			}}
 		ex.Setup = func(s *sched.Sched) func(*sched.XExec, []sched.XChoice) {
 			debug.SetGCPercent(-1)
 			cur, curBG = sc.prepare()
@@ -365,6 +379,15 @@ func (sc *scenario) explore(r *core.Result, shard, nshards int, seeds []string) 
 	for k := range writerSec {
 		st.WriterSections = append(st.WriterSections, info(k).Func)
 	}
+	for k := range known {
+		if strings.HasPrefix(k, "W:") {
+			st.WriterSections = append(st.WriterSections, k[2:])
+		} else {
+			st.BranchSites = append(st.BranchSites, k)
+		}
+	}
+	sort.Strings(st.BranchSites)
+	st.BranchSites = uniq(st.BranchSites)
 	sort.Strings(st.WriterSections)
 	st.WriterSections = uniq(st.WriterSections)
 	st.Distinct = len(st.Outcomes)
@@ -375,6 +398,56 @@ func (sc *scenario) explore(r *core.Result, shard, nshards int, seeds []string) 
 	}
 	st.DistinctFinals = len(st.FinalStates)
 	return st
+}
+
+const classesFile = "/verif/mc/props/c19/classes.json"
+
+var (
+	classesOnce sync.Once
+	knownSets   = map[string]map[string]bool{}
+)
+
+func knownClasses() map[string]map[string]bool {
+	classesOnce.Do(func() {
+		if os.Getenv("VERIF_C19_NO_CLASSES") != "" {
+			return
+		}
+		b, err := os.ReadFile(classesFile)
+		if err != nil {
+			return
+		}
+		m := map[string][]string{}
+		if json.Unmarshal(b, &m) != nil {
+			return
+		}
+		for sc, l := range m {
+			knownSets[sc] = map[string]bool{}
+			for _, k := range l {
+				knownSets[sc][k] = true
+			}
+		}
+	})
+	return knownSets
+}
+
+// The field ChainDatabase.Beansdb is announced as a stand-in for the store's records: every function
+// of chain_database.go that goes to the store reads that pointer first. Functions that write through it
+// count as writers. The store synchronises itself, so unordered accesses are not data races; they are
+// dependent operations (read-modify-write sequences must not interleave) and preemption points when no
+// common lock excludes them.
+func storeProxy(site string) bool { return info(site).Expr == "Beansdb" }
+
+func storeWrite(site string) bool {
+	si := info(site)
+	if si.Expr != "Beansdb" {
+		return false
+	}
+	for _, f := range []string{"setBlock2DB(", "blockCommit(", "SetContractCode("} {
+		if strings.HasPrefix(si.Func, f) {
+			return true
+		}
+	}
+	return false
 }
 
 func uniq(l []string) []string {
@@ -501,7 +574,7 @@ func (sc *scenario) gate() (ok bool, why string) {
 		inlineOff = !inline
 		defer func() { inlineOff = false }()
 		var in *inst
-		x := sched.RunX(sched.XCfg{Watchdog: watchdog, Trace: true, AtomicLoad: atomicLoad, Branch: func(string, sched.OpKind) bool { return false }}, func(s *sched.Sched) {
+		x := sched.RunX(sched.XCfg{Watchdog: watchdog, Trace: true, AtomicLoad: atomicLoad, AccessWrite: storeWrite, NoRace: storeProxy, Branch: func(string, sched.OpKind) bool { return false }}, func(s *sched.Sched) {
 			var bg []bgTask
 			in, bg = sc.prepare()
 			sc.startThreads(s, in, bg)
